@@ -872,6 +872,114 @@ theorem decap_extFirstPkt_unknown (hz : lbl ≠ zeroLabel) (hne : exts ≠ [])
 
 end firstChain
 
+/-! ### What an `Ok` of `encap_ext` means -/
+
+/-- the label as written: the requested one or the re-use marker -/
+theorem writtenLabel_cases (es : Enc) (l : Label) :
+    (checkLabelReUse es l).1 = l ∨ (checkLabelReUse es l).1 = .reuse := by
+  unfold checkLabelReUse
+  repeat' split
+  all_goals simp
+
+theorem writtenLabel_ne_zero {es : Enc} {l : Label} (hz : l ≠ zeroLabel) :
+    (checkLabelReUse es l).1 ≠ zeroLabel := by
+  rcases writtenLabel_cases es l with h | h <;> rw [h]
+  · exact hz
+  · decide
+
+section inv
+variable {crc : CrcFn} {es : Enc} {pdu : Bytes} {fid pt : Nat} {label : Label} {buf : Bytes}
+  {exts : List Ext}
+
+/-- `encap_ext` returned `Completed(n)`: the guards that held and the buffer in closed form -/
+theorem encapExt_completed_inv (hwf : ∀ e ∈ exts, e.len = PROTOCOL_LEN + e.data.length) {n : Nat}
+    (hres : (encapExt crc es pdu fid pt label buf exts).res = .ok (.completed n)) :
+    let lbl := (checkLabelReUse es label).1
+    label ≠ zeroLabel ∧ exts ≠ [] ∧
+    pdu.length + lbl.len + PROTOCOL_LEN + extLen pt exts ≤ GSE_LEN_MAX ∧
+    n = pdu.length + lbl.len + PROTOCOL_LEN + extLen pt exts + FIXED_HEADER_LEN ∧
+    n ≤ buf.length ∧
+    (encapExt crc es pdu fid pt label buf exts).buf = extCompletePkt pt lbl exts pdu ++ buf.drop n := by
+  have h := encapExt_cases crc es pdu fid pt label buf exts hwf
+  dsimp only at h ⊢
+  generalize (checkLabelReUse es label).1 = lbl at h ⊢
+  rcases h with ⟨_, h⟩ | ⟨lastExt, hlast, ⟨_, h⟩ | ⟨hfm, ⟨_, h⟩ | ⟨hpt, ⟨_, h⟩ | ⟨hz, ⟨hfit, h⟩ |
+    ⟨_, _, h⟩ | ⟨_, _, _, h⟩ | ⟨_, _, _, _, h⟩⟩⟩⟩⟩ <;> rw [h] at hres ⊢ <;>
+    first | (simp at hres; done) | skip
+  have hn : n = pdu.length + lbl.len + PROTOCOL_LEN + extLen pt exts + FIXED_HEADER_LEN := by
+    simp only [Res.ok.injEq, EncStatus.completed.injEq] at hres
+    exact hres.symm
+  have hne : exts ≠ [] := by intro he; rw [he] at hlast; cases hlast
+  refine ⟨hz, hne, hfit.2, hn, ?_, ?_⟩
+  · have := hfit.1; rw [hn]; gse_omega
+  · simp only [extCompletePkt]
+    congr 2
+    rw [hn]; gse_omega
+
+/-- `encap_ext` returned `Fragmented(n, ctx)`: the guards that held, the context and the buffer in
+closed form; `k = ctx.pos` PDU bytes are in the packet -/
+theorem encapExt_fragmented_inv (hwf : ∀ e ∈ exts, e.len = PROTOCOL_LEN + e.data.length) {n : Nat}
+    {ctx : FragCtx}
+    (hres : (encapExt crc es pdu fid pt label buf exts).res = .ok (.fragmented n ctx)) :
+    let lbl := (checkLabelReUse es label).1
+    let k := firstPayloadLen (lbl.len + extLen pt exts) buf.length
+    label ≠ zeroLabel ∧ exts ≠ [] ∧ k < pdu.length ∧
+    pdu.length + PROTOCOL_LEN + lbl.len ≤ TOTAL_LEN_MAX ∧
+    FRAG_ID_LEN + TOTAL_LENGTH_LEN + PROTOCOL_LEN + lbl.len + extLen pt exts + k ≤ GSE_LEN_MAX ∧
+    n = FIRST_FRAG_LEN + lbl.len + extLen pt exts + k ∧
+    ctx = ⟨fid, crc pdu pt (pdu.length + PROTOCOL_LEN + lbl.len) lbl.bytes, k⟩ ∧
+    n ≤ buf.length ∧
+    (encapExt crc es pdu fid pt label buf exts).buf
+      = extFirstPkt pt lbl exts fid (pdu.length + PROTOCOL_LEN + lbl.len) (pdu.take k)
+          ++ buf.drop n := by
+  have h := encapExt_cases crc es pdu fid pt label buf exts hwf
+  dsimp only at h ⊢
+  generalize (checkLabelReUse es label).1 = lbl at h ⊢
+  generalize hk : firstPayloadLen (lbl.len + extLen pt exts) buf.length = k at h ⊢
+  rcases h with ⟨_, h⟩ | ⟨lastExt, hlast, ⟨_, h⟩ | ⟨hfm, ⟨_, h⟩ | ⟨hpt, ⟨_, h⟩ | ⟨hz, ⟨_, h⟩ |
+    ⟨_, _, h⟩ | ⟨_, _, _, h⟩ | ⟨hnf, hb, hnt, hlt, h⟩⟩⟩⟩⟩ <;> rw [h] at hres ⊢ <;>
+    first | (simp at hres; done) | skip
+  simp only [Res.ok.injEq, EncStatus.fragmented.injEq] at hres
+  obtain ⟨hn, hctx⟩ := hres
+  have hk1 : k ≤ GSE_LEN_MAX - (FRAG_ID_LEN + TOTAL_LENGTH_LEN + PROTOCOL_LEN + (lbl.len + extLen pt exts)) := by
+    rw [← hk]; exact Nat.min_le_right _ _
+  have hk2 : k ≤ buf.length - (FIXED_HEADER_LEN + PROTOCOL_LEN + (lbl.len + extLen pt exts)
+      + FRAG_ID_LEN + TOTAL_LENGTH_LEN) := by rw [← hk]; exact Nat.min_le_left _ _
+  have htk : (pdu.take k).length = k := by rw [List.length_take]; omega
+  have hne : exts ≠ [] := by intro he; rw [he] at hlast; cases hlast
+  refine ⟨hz, hne, hlt, ?_, ?_, hn.symm, hctx.symm, ?_, ?_⟩
+  · exact Nat.le_of_not_lt (fun hh => hnt (Or.inl hh))
+  · have := Nat.le_of_not_lt (fun hh => hnt (Or.inr hh)); gse_omega
+  · rw [← hn]; gse_omega
+  · simp only [extFirstPkt, htk]
+    rw [← hn]
+
+end inv
+
+/-- The receiver's label memory is in step with the sender: when the label field is the re-use
+marker the receiver remembers the 3- or 6-byte label `l`; otherwise `l` is the label in the
+packet.  Then `decap` resolves the label to `l` and remembers it (a broadcast label clears the
+memory). -/
+theorem resolveLabel_sync {lbl label l : Label} {last : Option Label}
+    (hw : lbl = label ∨ lbl = .reuse)
+    (hsync : lbl = .reuse → last = some l ∧ (l.type = .six ∨ l.type = .three))
+    (hint : lbl ≠ .reuse → l = label) :
+    resolveLabel lbl.type lbl last = .ok l (if lbl = .broadcast then none else some l) := by
+  by_cases hr : lbl = .reuse
+  · obtain ⟨h1, h2⟩ := hsync hr
+    subst hr h1
+    cases l <;> simp [Label.type] at h2 <;> rfl
+  · have hl := hint hr
+    have hlbl : lbl = label := hw.resolve_right hr
+    subst hl hlbl
+    cases lbl <;> first | rfl | exact absurd rfl hr
+
+/-- handing a buffer back never yields `Ok` -/
+theorem giveBack_ne_ok (m : Mem) (last : Option Label) (s : Storage) (e : DecErr) (n : Nat)
+    (st : DecStatus) : (giveBack m last s e n).res ≠ .ok st := by
+  unfold giveBack
+  split <;> simp
+
 /-! ### Fixtures for the `example`s (here and in Props/C13.lean) -/
 namespace C13
 /-- one extension of H-LEN class 1 (no data), one of class 5 (8 bytes), a non-final mandatory one
